@@ -31,7 +31,21 @@ type VOther struct {
 
 func (v *VOther) Label() string { return v.Q }
 
+// three levels of anonymous embedding, the innermost with several fields of one kind
+type VEmb3 struct {
+	Alpha int64  `json:"alpha"`
+	Beta  int64  `json:"beta"`
+	Gamma string `json:"gamma"`
+	Delta string `json:"delta"`
+}
+
+type VEmb2 struct {
+	VEmb3
+	E2 int `json:"e2"`
+}
+
 type VEmb struct {
+	VEmb2
 	E int `json:"e"`
 }
 
@@ -48,6 +62,7 @@ type VAll struct {
 	MS    map[string]string      `json:"ms"`
 	MF    map[string]float64     `json:"mf"`
 	MI    map[string]interface{} `json:"mi"`
+	MIf   map[string]VIface      `json:"mif"`
 	T     time.Time              `json:"t"`
 	P     *VInner                `json:"p"`
 	P2    *VInner                `json:"p2"`
@@ -87,6 +102,7 @@ type c10case struct {
 	want  func() *VAll
 	// shared: after conversion these pointer fields must be the same Go object
 	sameP bool
+	same  func(v *VAll) string // "" or what is not shared
 }
 
 var c10time = time.Date(2020, 3, 4, 5, 6, 7, 0, time.UTC)
@@ -129,6 +145,13 @@ func c10atoms() []c10atom {
 	add("map[string]float64", "mf", `mf:(hash k:1.5)`, func(v *VAll) { v.MF = map[string]float64{"k": 1.5} })
 	add("map[string]interface", "mi", `mi:(hash k:"s")`, func(v *VAll) { v.MI = map[string]interface{}{"k": "s"} })
 	add("map[string]interface", "mi", `mi:(hash k:1 j:"s" b:true f:2.5)`, func(v *VAll) { v.MI = map[string]interface{}{"k": int64(1), "j": "s", "b": true, "f": 2.5} })
+	add("map[string]Iface", "mif", `mif:(hash k:(vinner s:"m" n:1))`, func(v *VAll) { v.MIf = map[string]VIface{"k": &VInner{S: "m", N: 1}} })
+	add("map[string]Iface", "mif", `mif:(hash k:(vinner s:"m" n:1) j:(vother q:"o"))`, func(v *VAll) { v.MIf = map[string]VIface{"k": &VInner{S: "m", N: 1}, "j": &VOther{Q: "o"}} })
+	add("embedded3", "alpha", `alpha:11`, func(v *VAll) { v.Alpha = 11 })
+	add("embedded3", "beta", `beta:22`, func(v *VAll) { v.Beta = 22 })
+	add("embedded3", "gamma", `gamma:"g"`, func(v *VAll) { v.Gamma = "g" })
+	add("embedded3", "delta", `delta:"d"`, func(v *VAll) { v.Delta = "d" })
+	add("embedded2", "e2", `e2:5`, func(v *VAll) { v.E2 = 5 })
 	add("time", "t", `t:tm0`, func(v *VAll) { v.T = c10time })
 	add("*struct", "p", `p:(vinner s:"q" n:7)`, func(v *VAll) { v.P = &VInner{S: "q", N: 7} })
 	add("*struct", "p2", `p2:(vinner s:"q2" n:8)`, func(v *VAll) { v.P2 = &VInner{S: "q2", N: 8} })
@@ -189,7 +212,52 @@ func c10cases(thorough bool) []c10case {
 			}
 		}
 	}
+	// every subset of the fields reached through embedding (levels 1, 2 and 3 together)
+	{
+		var emb []c10atom
+		for _, a := range atoms {
+			if (a.class == "embedded3" || a.class == "embedded2") || a.frag == "e:1" {
+				emb = append(emb, a)
+			}
+		}
+		for mask := 1; mask < 1<<len(emb); mask++ {
+			var sel []c10atom
+			for i, a := range emb {
+				if mask&(1<<i) != 0 {
+					sel = append(sel, a)
+				}
+			}
+			if len(sel) >= 2 {
+				mk(fmt.Sprintf("embedded-subset/%d", len(sel)), sel...)
+			}
+		}
+	}
 	// sharing: one record referenced twice
+	cs = append(cs, c10case{class: "shared-in-map-of-interface", setup: `(def in (vinner s:"sh" n:5))`, rec: `(vall p:in mif:(hash left:in right:in))`,
+		want: func() *VAll {
+			in := &VInner{S: "sh", N: 5}
+			return &VAll{P: in, MIf: map[string]VIface{"left": in, "right": in}}
+		},
+		same: func(v *VAll) string {
+			if v.MIf["left"] != v.MIf["right"] {
+				return "the two map entries are different Go objects"
+			}
+			if l, ok := v.MIf["left"].(*VInner); !ok || l != v.P {
+				return "the map entry and the pointer field are different Go objects"
+			}
+			return ""
+		}})
+	cs = append(cs, c10case{class: "shared-in-map-of-interface-only", setup: `(def in (vother q:"sh"))`, rec: `(vall mif:(hash a:in b:in) if:in)`,
+		want: func() *VAll {
+			in := &VOther{Q: "sh"}
+			return &VAll{If: in, MIf: map[string]VIface{"a": in, "b": in}}
+		},
+		same: func(v *VAll) string {
+			if v.MIf["a"] != v.MIf["b"] || v.MIf["a"] != v.If {
+				return "the record referenced three times became several Go objects"
+			}
+			return ""
+		}})
 	cs = append(cs, c10case{class: "shared-pointer-twice", setup: `(def in (vinner s:"sh" n:5))`, rec: `(vall p:in p2:in)`, sameP: true,
 		want: func() *VAll { in := &VInner{S: "sh", N: 5}; return &VAll{P: in, P2: in} }})
 	cs = append(cs, c10case{class: "shared-pointer-and-interface", setup: `(def in (vinner s:"sh" n:5))`, rec: `(vall p:in if:in)`,
@@ -247,6 +315,8 @@ func c10run(c *engine.Ctx, k c10case) {
 		viol("to-go-differs", fmt.Sprintf("SexpToGoStructs(%s) = %+v, want %+v", k.rec, got, *want))
 	} else if k.sameP && got.P != got.P2 {
 		viol("sharing", "the record referenced twice became two Go objects")
+	} else if k.same != nil && k.same(&got) != "" {
+		viol("sharing", k.same(&got))
 	}
 	// (2) the script-level conversion
 	tg := zy.Eval(env, "(togo a)")
